@@ -138,7 +138,8 @@ def project_values(values):
         return []
     if len(values) == 0:
         return ["EMPTYLIST"]
-    return [repr(float(v)) for v in values]
+    # what is stored must BE floats (the docstring of FrozenTrial.values), not merely convert to them
+    return [repr(float(v)) if type(v) is float else f"NOTAFLOAT:{type(v).__name__}" for v in values]
 
 
 def project_trial(t):
@@ -710,6 +711,13 @@ def run(ctx):
     for storage in ("sqlite", "journal"):     # a sample of the tell sequences on the persistent backends
         for s in rng.sample([t for t in tells if len(t["calls"]) > 1], 15 if q else 300):
             plan.append(("tell", dict(s, impl=dict(s["impl"], storage=storage))))
+    # every value kind with an explicit or implicit COMPLETE on the serialising backend (journal: JSON), a sample on SQLite
+    single = [t for t in tells if len(t["calls"]) == 1 and t["cfg"]["pre"] == ["R"] and t["calls"][0]["st"] in ("None", "COMPLETE")
+              and t["calls"][0]["skip"] == 0]
+    for s in single:
+        plan.append(("tell", dict(s, impl=dict(s["impl"], storage="journal"))))
+    for s in rng.sample(single, min(len(single), 20 if q else 200)):
+        plan.append(("tell", dict(s, impl=dict(s["impl"], storage="sqlite"))))
     items = execute(plan, workdir)
     for it in items:
         ctx.count_case([it["scn"], it.get("final") or it.get("events")],
